@@ -36,9 +36,14 @@ class C10:
             "and deliberately dirtied buffers (previous traffic, SIP-looking, line-end soup); (b) Content-Length over-/under-"
             "declared by 1..200 bytes and by the exact size of what the previous datagram left; (c) histories of 2-12 datagrams "
             "20 B - 60 KiB with receive/parse interleaved in random order so that buffers are recycled in every order; "
-            "(d) Alloc/Free sequences on the real pool with maxCap 0..5 and 40960 (identity = address of the array). "
+            "(d) Alloc/Free sequences on the real pool with maxCap 0..5 and 40960 (identity = address of the array); "
+            "(e) over the wire: 2-9 datagrams (valid, truncated, over-declared, and keep-alive sized: empty, CRLF, blanks) sent over a "
+            "real loopback socket into the REAL receiveMessage goroutine and handed one by one to the REAL parse goroutine on the same "
+            "pool, the receive loop running ahead of the parse loop in scripted orders; observed: every decoded message and the number "
+            "of buffers sitting in the pool twice. "
             "Non-trivial = a datagram parsed from a buffer that held other bytes before; distinct by content hash.")
-    trusted = ["net.UDPConn.ReadFromUDP is replaced by copy(buf, datagram) (n = bytes copied); the parse loop, the pool and ParseMessage are the real code",
+    trusted = ["streams (a)-(c): net.UDPConn.ReadFromUDP is replaced by copy(buf, datagram) (n = bytes copied); the parse loop, the pool and ParseMessage are the real code; "
+               "stream (e): the receive goroutine and the socket are real too, the two goroutines run on two transport values sharing the pool so that the hand-over can be paced",
                "the parse goroutine is paced by a barrier datagram travelling in its own array, popped from the pool again (checked by address)"]
     assumptions = ["pool clients free only what they hold, once (the receive/parse loops are proved to)"]
 
@@ -97,11 +102,38 @@ class C10:
         # ---- (d) the pool
         for i in range(300 if quick else 5000):
             cases.append(pool_case(rng, "p%d" % i))
+        # ---- (e) over the wire: real socket -> real receiveMessage goroutine -> real parse goroutine, the receive loop
+        #      ahead of the parse loop in scripted orders; keep-alive sized datagrams (empty, CRLF, blanks), truncated and
+        #      valid ones mixed; the pool must never hold a buffer twice
+        TINY = [b"", b"\r\n", b"\r\n\r\n", b" ", b"\n", b"\r", b"\t\r\n", b"\x00", b"\r\n\r", b"x"]
+        for i in range(150 if quick else 6000):
+            k = rng.randrange(2, 10)
+            ops, waiting = [], 0
+            for j in range(k):
+                r = rng.random()
+                if r < 0.3:
+                    d = rng.choice(TINY)
+                else:
+                    m = G.gen_msg(rng, max_line=100, max_body=300 if rng.random() < 0.9 else 20000, lead=b"")
+                    d = m.encode()
+                    if r < 0.4:
+                        d = d[:rng.randrange(len(d) + 1)]
+                    elif r < 0.5:
+                        d = set_length(rng, m, len(m.body) + rng.randrange(1, 300)).encode()
+                ops.append((b"recv", d[:60000]))
+                waiting += 1
+                while waiting and rng.random() < 0.4:
+                    ops.append((b"parse",))
+                    waiting -= 1
+                if rng.random() < 0.1:
+                    ops.append((b"dirty", G.SIPISH))
+            ops += [(b"parse",)] * waiting
+            cases.append(G.udp_case("rxwire", "w%d" % i, rng.choice([2048, 65536]), ops, {"kind": "wire", "dirty": True, "n": k}))
         corp = lib.load_corpus("C10")
         cases = corp + cases
 
         def nontrivial(c, io):
-            return c.comp == "rxudp" and c.meta.get("dirty", c.meta.get("kind") == "corpus") and io[:1] not in ([b"0"], [b"crash"])
+            return c.comp in ("rxudp", "rxwire") and c.meta.get("dirty", c.meta.get("kind") == "corpus") and io[:1] not in ([b"0"], [b"crash"])
 
         def describe(c, io, mo):
             if c.comp == "rxpool":
